@@ -167,10 +167,11 @@ Definition sys_fresh (relaxedB : bool) : sys :=
         (mkInner (set_relaxed session_new relaxedB) 0 [] 0) [] [].
 
 (** the system right after a handshake that agreed on segment size [m] and
-    window [w]: the responder B has sent its response (its sequence number 0) *)
-Definition sys_established (c : cfg) (ver m w : N) : sys :=
+    window [w]: the responder B has sent its response (its sequence number 0);
+    [relB] = B runs the relaxed MTU negotiation (only read during a handshake) *)
+Definition sys_established (c : cfg) (ver m w : N) (relB : bool) : sys :=
   mkSys (mkInner (mkSess true (addrB c) ver m w false (mkRW [] 0 w 0 0 0) (mkSW w w 255) false) 0 [] 0)
-        (mkInner (mkSess false (addrA c) ver m w false (mkRW [] 0 w 0 255 0) (mkSW w (w - 1) 0) false) 0 [] 0)
+        (mkInner (mkSess false (addrA c) ver m w false (mkRW [] 0 w 0 255 0) (mkSW w (w - 1) 0) relB) 0 [] 0)
         [] [].
 
 (** * Monitor for two well-behaved ends
